@@ -31,6 +31,9 @@
 //        cls kinds: class A (even rows) X1 = -100, class B (odd rows) X1 = +100, the k rows <pos> (odd) are of class B with X1 = -100;
 //        reg kinds: X1 = (i mod 7) - 3, target = X1 except target = X1 + 1 on the k rows <pos>
 //        -> ok fit <v> n <N> moved <number of rows whose difficulty changed> rows <their indices, at most 20>
+//   wrap <kind> <x_slot> <classes> <d0> <g> (<class|target> <x1|u> <count>)*g   counter-width-directed case: program X1 on a
+//        multiset of examples (group j = <count> identical examples, rows round-robin over the groups, every difficulty = <d0>)
+//        -> ok fit <v> n <N> inc <rows of group j whose counter became d0+1>*g odd <rows with any other counter != d0>
 //   tev <distinct|fixed|random> <fast 0|1> <k> <id>*k         (test_evaluator<i_de>, one object, k calls; the
 //        individual with id i has genome {i})      -> ok seq <v>*k   (`size=<s>` for a fitness of another size)
 //   small <value>  -> 0 | 1                                  (vita::issmall)
@@ -658,6 +661,93 @@ std::string do_big(symbols &S, const std::vector<std::string> &t)
   return "ok " + showfit(fit) + " n " + std::to_string(d.size()) + " moved " + std::to_string(moved) + " rows" + rows;
 }
 
+// ---- counter-width-directed cases ---------------------------------------------------------
+// wrap <kind> <x_slot> <classes> <d0> <g> (<class|target> <x1|u> <count>)*g
+//   program X1 on a MULTISET of examples: group j contributes <count> identical examples; the rows are laid
+//   out round-robin over the groups (so the largest group ends the frame); every difficulty counter starts at <d0>.
+//   -> ok fit <v> n <N> inc <rows of group j whose counter is d0 + 1>*g odd <rows whose counter is neither d0 nor d0 + 1>
+std::string do_wrap(symbols &S, const std::vector<std::string> &t)
+{
+  if (t.size() < 6) return "bad-op";
+  const std::string kind(t[1]);
+  const unsigned x_slot(std::stoul(t[2]));
+  const unsigned ncl(std::stoul(t[3]));
+  const std::uintmax_t d0(std::stoull(t[4]));
+  const std::size_t g(std::stoull(t[5]));
+  if (t.size() != 6 + 3 * g || !x_slot || !g) return "bad-op";
+  const bool cls(kind == "dyn" || kind == "gau" || kind == "bin");
+  if (cls && (ncl < 2 || ncl > 20)) return "bad-op";
+
+  struct group { value_t out; value_t x1; std::size_t count; };
+  std::vector<group> gs;
+  std::size_t n(0);
+  for (std::size_t j(0); j < g; ++j)
+  {
+    group q;
+    if (cls)
+    {
+      const auto c(std::stoul(t[6 + 3 * j]));
+      if (c >= ncl) return "bad-op";
+      q.out = static_cast<D_INT>(c);
+    }
+    else
+    {
+      double v;
+      if (!parsef(t[6 + 3 * j], v)) return "bad-op";
+      q.out = v;
+    }
+    q.x1 = parsev(t[7 + 3 * j]);
+    q.count = std::stoull(t[8 + 3 * j]);
+    if (q.count > 40000000) return "bad-op";
+    n += q.count;
+    gs.push_back(q);
+  }
+  if (!n || n > 40000000) return "bad-op";
+
+  dataframe d;
+  if (cls)
+  {
+    std::string csv;
+    for (unsigned c(0); c < ncl; ++c) csv += "k" + std::to_string(c) + ",0.5,1.5\n";
+    std::istringstream in(csv);
+    if (d.read_csv(in, dataframe::params().no_header()) != ncl) return "bad-import";
+    d.clear();
+  }
+  std::vector<std::size_t> left, owner;
+  for (const auto &q : gs) left.push_back(q.count);
+  owner.reserve(n);
+  for (std::size_t done(0); done < n; )
+    for (std::size_t j(0); j < g; ++j)
+      if (left[j])
+      {
+        --left[j];
+        ++done;
+        dataframe::example ex;
+        ex.output = gs[j].out;
+        ex.input = {gs[j].x1, value_t(0.0)};
+        ex.difficulty = d0;
+        d.push_back(ex);
+        owner.push_back(j);
+      }
+
+  const i_mep prg(S.make("x1"));
+  auto eva(make_eva<i_mep>(kind, d, x_slot));
+  if (!eva) return "bad-op";
+  const auto fit((*eva)(prg));
+
+  std::vector<std::size_t> inc(g, 0);
+  std::size_t odd(0), i(0);
+  for (const auto &e : d)
+  {
+    if (e.difficulty == d0 + 1) ++inc[owner[i]];
+    else if (e.difficulty != d0) ++odd;
+    ++i;
+  }
+  std::string ans("ok " + showfit(fit) + " n " + std::to_string(d.size()) + " inc");
+  for (auto v : inc) ans += " " + std::to_string(v);
+  return ans + " odd " + std::to_string(odd);
+}
+
 // ---- test_evaluator ----------------------------------------------------------------------
 std::string do_tev(const std::vector<std::string> &t)
 {
@@ -716,6 +806,7 @@ int main()
       else if (t[0] == "tev") ans = do_tev(t);
       else if (t[0] == "hist") ans = do_hist(S, t);
       else if (t[0] == "big") ans = do_big(S, t);
+      else if (t[0] == "wrap") ans = do_wrap(S, t);
       else if (t[0] == "small")
       {
         double v;
